@@ -6,6 +6,7 @@ import (
 	"regexp"
 	"sort"
 	"strings"
+	"unsafe"
 
 	"github.com/krotik/ecal/engine"
 )
@@ -195,6 +196,93 @@ type c01RuleSpec struct {
 	ik, il int
 }
 
+// snapshot renders everything reachable from v, including the spare capacity of
+// slices and unexported fields: Match and IsTriggering are called by several
+// workers without a lock, so they must not write to the shared index.
+func snapshot(v interface{}) string {
+	var b strings.Builder
+	seen := map[uintptr]bool{}
+	var walk func(rv reflect.Value, depth int)
+	walk = func(rv reflect.Value, depth int) {
+		if depth > 40 {
+			return
+		}
+		if rv.Kind() != reflect.Invalid && !rv.CanInterface() && rv.CanAddr() {
+			rv = reflect.NewAt(rv.Type(), unsafe.Pointer(rv.UnsafeAddr())).Elem()
+		}
+		switch rv.Kind() {
+		case reflect.Invalid:
+			b.WriteString("nil;")
+		case reflect.Ptr, reflect.Interface:
+			if rv.IsNil() {
+				b.WriteString("nil;")
+				return
+			}
+			if rv.Kind() == reflect.Ptr {
+				if seen[rv.Pointer()] {
+					fmt.Fprintf(&b, "@%d;", rv.Pointer())
+					return
+				}
+				seen[rv.Pointer()] = true
+				if rv.Type().String() == "*regexp.Regexp" || rv.Type().String() == "*engine.Rule" {
+					fmt.Fprintf(&b, "%s@%d;", rv.Type(), rv.Pointer())
+					return
+				}
+			}
+			walk(rv.Elem(), depth+1)
+		case reflect.Struct:
+			b.WriteString("{")
+			for i := 0; i < rv.NumField(); i++ {
+				f := rv.Field(i)
+				if !f.CanInterface() {
+					if !f.CanAddr() {
+						// copy into an addressable value
+						cp := reflect.New(rv.Type()).Elem()
+						cp.Set(rv)
+						f = cp.Field(i)
+					}
+					f = reflect.NewAt(f.Type(), unsafe.Pointer(f.UnsafeAddr())).Elem()
+				}
+				walk(f, depth+1)
+			}
+			b.WriteString("}")
+		case reflect.Slice:
+			if rv.IsNil() {
+				b.WriteString("nilslice;")
+				return
+			}
+			fmt.Fprintf(&b, "[len%d cap%d:", rv.Len(), rv.Cap())
+			full := rv.Slice(0, rv.Cap())
+			for i := 0; i < full.Len(); i++ {
+				walk(full.Index(i), depth+1)
+			}
+			b.WriteString("]")
+		case reflect.Map:
+			keys := rv.MapKeys()
+			var ks []string
+			km := map[string]reflect.Value{}
+			for _, k := range keys {
+				s := fmt.Sprintf("%v", k)
+				ks = append(ks, s)
+				km[s] = k
+			}
+			sort.Strings(ks)
+			b.WriteString("map{")
+			for _, k := range ks {
+				b.WriteString(k + ":")
+				walk(rv.MapIndex(km[k]), depth+1)
+			}
+			b.WriteString("}")
+		case reflect.Func:
+			b.WriteString("func;")
+		default:
+			fmt.Fprintf(&b, "%v;", rv)
+		}
+	}
+	walk(reflect.ValueOf(v), 0)
+	return b.String()
+}
+
 func c01IndexCase(c *Ctx, specs []c01RuleSpec, kinds [][]string, evStates [][2]int) {
 	var desc []string
 	idx := engine.NewRuleIndex()
@@ -215,6 +303,12 @@ func c01IndexCase(c *Ctx, specs []c01RuleSpec, kinds [][]string, evStates [][2]i
 		}
 	}
 	rdesc := strings.Join(desc, "; ")
+	before := snapshot(idx)
+	defer func() {
+		if after := snapshot(idx); after != before {
+			c.Viol("match-writes-to-the-shared-index", fmt.Sprintf("rules [%s]: Match / IsTriggering changed the rule index (including spare slice capacity); workers call them concurrently without a lock, so a matching run can be corrupted by another", rdesc), rdesc)
+		}
+	}()
 	for _, kind := range kinds {
 		for _, es := range evStates {
 			st, sd := c01EventState(es[0], es[1])
@@ -324,6 +418,13 @@ func c01Index(c *Ctx) {
 					}
 				}
 			}
+		}
+	}
+	// triples: a wildcard sub-index next to two exact siblings on the same level
+	for _, tail := range []string{"", ".a", ".*"} {
+		if c.Mine() {
+			c01IndexCase(c, []c01RuleSpec{{"r1", []string{"*" + tail}, 0, 0}, {"r2", []string{"a" + tail}, 0, 0}, {"r3", []string{"b" + tail}, 2, 0}}, kinds, [][2]int{{0, 0}, {2, 0}})
+			c01IndexCase(c, []c01RuleSpec{{"r1", []string{"*" + tail}, 2, 0}, {"r2", []string{"a" + tail}, 0, 0}, {"r3", []string{"b" + tail}, 0, 0}}, kinds, [][2]int{{0, 0}, {2, 0}})
 		}
 	}
 	// pairs of rules with different patterns (wildcards at any level)
